@@ -9,7 +9,7 @@ Record setdata : Type := mksd {
   sd_added : list nat;        (* added in this session, not flushed *)
   sd_removed : list nat;
   sd_absent : option (list nat);  (* negative cache of __contains__: items known NOT to be members; reset by flush / full load *)
-  sd_count : option nat           (* SetData.count: the size of the collection when it is known *)
+  sd_count : option Z             (* SetData.count (a Python int: the code can drive it below zero) *)
 }.
 
 Inductive check : Type :=
@@ -39,12 +39,12 @@ Definition without (x : nat) (l : list nat) : list nat := filter (fun y => negb 
 Definition sd_add (sd : setdata) (x : nat) : setdata :=
   mksd (x :: sd_items sd) (sd_full sd)
        (if memn x (sd_removed sd) then sd_added sd else x :: sd_added sd) (without x (sd_removed sd)) (sd_absent sd)
-       (option_map S (sd_count sd)).
+       (option_map Z.succ (sd_count sd)).
 (* SetInstance.remove(x) / reverse_remove *)
 Definition sd_remove (sd : setdata) (x : nat) : setdata :=
   mksd (without x (sd_items sd)) (sd_full sd)
        (without x (sd_added sd)) (if memn x (sd_added sd) then sd_removed sd else x :: sd_removed sd) (sd_absent sd)
-       (option_map pred (sd_count sd)).
+       (option_map Z.pred (sd_count sd)).
 
 (* an order is safe when no check that can answer False stands before the membership test *)
 Fixpoint safe_order (order : list check) : bool :=
